@@ -309,14 +309,16 @@ func (k Keeper) OnAcknowledgementOutgoingInFlightPacket(
 	return nil
 }
 
+// OnTimeoutOutgoingInFlightPacket reports resent = true when the packet was sent again: the funds
+// escrowed (or burned) by the original transfer then back the new packet and must not be refunded.
 func (k Keeper) OnTimeoutOutgoingInFlightPacket(
 	ctx sdk.Context,
 	packet channeltypes.Packet,
 	outgoingPacket types.OutgoingInFlightPacket,
-) error {
-	err := k.RemoveOutgoingInFlightPacket(ctx, outgoingPacket.Index.PortId, outgoingPacket.Index.ChannelId, outgoingPacket.Index.Sequence)
+) (resent bool, err error) {
+	err = k.RemoveOutgoingInFlightPacket(ctx, outgoingPacket.Index.PortId, outgoingPacket.Index.ChannelId, outgoingPacket.Index.Sequence)
 	if err != nil {
-		return err
+		return false, err
 	}
 	outgoingPacket.RetriesRemaining--
 
@@ -336,7 +338,7 @@ func (k Keeper) OnTimeoutOutgoingInFlightPacket(
 			packet.Data,
 		)
 		if err != nil {
-			return err
+			return false, err
 		}
 
 		// Set the new sequence number
@@ -344,14 +346,14 @@ func (k Keeper) OnTimeoutOutgoingInFlightPacket(
 		outgoingPacket.Index.Sequence = sequence
 		err = k.SetOutgoingInFlightPacket(ctx, outgoingPacket)
 		if err != nil {
-			return err
+			return false, err
 		}
 
 		// The waiting packet must follow the re-sent packet, otherwise neither its
 		// acknowledgement nor its final timeout would ever resolve the leg
 		waitingPacket, found, err := k.GetIncomingInFlightPacket(ctx, outgoingPacket.AckWaitingIndex.PortId, outgoingPacket.AckWaitingIndex.ChannelId, outgoingPacket.AckWaitingIndex.Sequence)
 		if err != nil {
-			return err
+			return false, err
 		}
 		if found {
 			newIndex := outgoingPacket.Index
@@ -363,9 +365,11 @@ func (k Keeper) OnTimeoutOutgoingInFlightPacket(
 			}
 			err = k.SetIncomingInFlightPacket(ctx, waitingPacket)
 			if err != nil {
-				return err
+				return false, err
 			}
 		}
+
+		return true, nil
 	} else {
 		// If remaining retry count is zero:
 		// - Returning non error acknowledgement to the origin
@@ -374,10 +378,10 @@ func (k Keeper) OnTimeoutOutgoingInFlightPacket(
 
 		waitingPacket, found, err := k.GetIncomingInFlightPacket(ctx, outgoingPacket.AckWaitingIndex.PortId, outgoingPacket.AckWaitingIndex.ChannelId, outgoingPacket.AckWaitingIndex.Sequence)
 		if err != nil {
-			return err
+			return false, err
 		}
 		if !found {
-			return nil
+			return false, nil
 		}
 
 		switch packetReturn := waitingPacket.Change.(type) {
@@ -402,17 +406,17 @@ func (k Keeper) OnTimeoutOutgoingInFlightPacket(
 
 		deleted, err := k.ShouldDeleteCompletedWaitingPacket(ctx, waitingPacket)
 		if err != nil {
-			return err
+			return false, err
 		}
 		if !deleted {
 			err = k.SetIncomingInFlightPacket(ctx, waitingPacket)
 			if err != nil {
-				return err
+				return false, err
 			}
 		}
 	}
 
-	return nil
+	return false, nil
 }
 
 func (k Keeper) ShouldDeleteCompletedWaitingPacket(
